@@ -728,7 +728,7 @@ theorem arrayFromfile_eq (data : Bits) (isz : Nat) (file : Bytes) (fk : FKind) (
     (hisz : 0 < isz) (htr : data.length % isz = 0)
     (hn : ∀ k, n = some k → 0 ≤ k ∧ k ≤ ((8 * file.length / isz : Nat) : Int)) :
     arrayFromfile data isz file fk n =
-      .ok (data ++ (bytesToBits file).take ((match n with
+      .ok (false, data ++ (bytesToBits file).take ((match n with
                                               | none => 8 * file.length / isz
                                               | some k => k.toNat) * isz)) := by
   obtain ⟨im, hsrc⟩ := fromfile_source file fk
@@ -745,7 +745,7 @@ theorem arrayFromfile_eq (data : Bits) (isz : Nat) (file : Bytes) (fk : FKind) (
     have hmin : min (m : Int) ((8 * file.length / isz : Nat) : Int) = (m : Int) := by omega
     have hlt : ¬ ((m : Int) < (m : Int)) := by omega
     simp only [arrayFromfile, h0, h1, if_false, hsrc, ok_bind, itemsToAppend, Store.len, Store.getslice,
-      bytesToBits_length, hmin, hlt, Int.toNat_natCast]
+      bytesToBits_length, hmin, hlt, Int.toNat_natCast, decide_false]
     rw [take_items]
 
 theorem arrayFromfile_trailing' (data : Bits) (isz : Nat) (file : Bytes) (fk : FKind) (n : Option Int)
@@ -754,21 +754,23 @@ theorem arrayFromfile_trailing' (data : Bits) (isz : Nat) (file : Bytes) (fk : F
   have h0 : ¬ isz = 0 := by omega
   simp [arrayFromfile, h0, htr]
 
+/-- More items requested than the file holds: every whole item is appended, nothing else, and EOFError is raised. -/
 theorem arrayFromfile_short' (data : Bits) (isz : Nat) (file : Bytes) (fk : FKind) (k : Int)
     (hisz : 0 < isz) (htr : data.length % isz = 0) (hk : ((8 * file.length / isz : Nat) : Int) < k) :
-    ∃ e, arrayFromfile data isz file fk (some k) = .error e := by
+    arrayFromfile data isz file fk (some k) =
+      .ok (true, data ++ (bytesToBits file).take (8 * file.length / isz * isz)) := by
   obtain ⟨im, hsrc⟩ := fromfile_source file fk
   have h0 : ¬ isz = 0 := by omega
   have h1 : ¬ (data.length % isz ≠ 0) := by omega
-  have hmin : min k ((8 * file.length / isz : Nat) : Int) < k := by omega
-  simp only [arrayFromfile, h0, h1, if_false, hsrc, ok_bind, itemsToAppend, Store.len, bytesToBits_length,
-    hmin, if_true]
-  exact ⟨_, rfl⟩
+  have hmin : min k ((8 * file.length / isz : Nat) : Int) = ((8 * file.length / isz : Nat) : Int) := by omega
+  simp only [arrayFromfile, h0, h1, if_false, hsrc, ok_bind, itemsToAppend, Store.len, Store.getslice,
+    bytesToBits_length, hmin, hk, decide_true]
+  rw [take_items]
 
 theorem array_roundtrip_eq (data : Bits) (isz chunk : Nat) (fk : FKind) (h8 : chunk % 8 = 0) (hpos : 0 < chunk)
     (hisz : 0 < isz) :
     (arrayTofile chunk data >>= fun w => arrayFromfile [] isz w fk none) =
-      .ok ((padded data).take ((padded data).length / isz * isz)) := by
+      .ok (false, (padded data).take ((padded data).length / isz * isz)) := by
   rw [arrayTofile_eq' chunk data h8 hpos, ok_bind,
     arrayFromfile_eq [] isz (toBytes data) fk none hisz (by simp) (by intro k hk; cases hk)]
   simp only [List.nil_append, bytesToBits_toBytes]
